@@ -296,6 +296,7 @@ def seqOp (s : St) (w : Nat) (op : Op) (script : List Nat) : St × String × Boo
   else if (g1.calls pid).isSome then ({ s with g := g1 }, tr ++ " => out-of-fuel", true)
   else
     let res := retStr (g1.ret pid)
+    if res == "bad-op" then (s, "bad-op", false) else
     let (sp', r) := specOp s.sp pid op
     let s' := record { s with g := g1, sp := sp' } pid op
     (s', withSpec tr res (specStr r), res == "fault")
@@ -361,7 +362,11 @@ def step (s : St) (toks : List String) : IO (St × Bool) := do
     | wa :: ta, wb :: tb =>
       match wa.toNat?, parseOp ta, wb.toNat?, parseOp tb with
       | some wa, some opa, some wb, some opb =>
-        if wa < NW ∧ wb < NW ∧ wa ≠ wb then out (parOp s sched wa opa wb opb) else bad
+        let newHid : Op → Option Nat
+          | .newSem h _ _ _ => some h
+          | .newShm h _ _ _ => some h
+          | _ => none
+        if wa < NW ∧ wb < NW ∧ wa ≠ wb ∧ ¬ (newHid opa ≠ none ∧ newHid opa = newHid opb) then out (parOp s sched wa opa wb opb) else bad
       | _, _, _, _ => bad
     | _, _ => bad
   | w :: rest =>
